@@ -1,7 +1,7 @@
 """C39 The bootloader only touches white-listed memory (check-before-use)."""
 from .lib.match import *
 
-SELECT = r'^bluetoe::bootloader::details::(controller|flash_buffer)::'
+SELECT = r'^bluetoe::bootloader::details::(controller|flash_buffer)::|^bluetoe::bootloader::white_list::acceptable$'
 UNITS = lambda u: u in ('w_inst_svc',) or u.startswith('t_services_bootloader')
 CT = 'bluetoe::bootloader::details::controller::'
 META = {
@@ -17,6 +17,8 @@ def run(chk, facts, tier):
     chk.rule('address-read-needs-length', 'every read_address(value + offset) in bootloader_write_control_point is dominated by write_size == 1 + n * sizeof(pointer) covering offset + sizeof(pointer)', floor=5)
     chk.rule('region-check-before-use', 'public_checksum32 / start of Read / set_start_address are reachable only behind acceptable(start, end) (with start <= end) or page_acceptable(address) of the same address', floor=4)
     chk.rule('page-check-covers-page', 'page_acceptable(a) tests MemRegions::acceptable(page_start, page_end) with page_start = a - a % PageSize, page_end = page_start + PageSize and page_start < page_end (when such a helper exists)', floor=0)
+    chk.rule('range-inside-one-region', 'white_list<memory_region<Start, End>, Regions...>::acceptable(start, end) is true only if one single region covers the whole range (start >= Start && end <= End) '
+             'or the remaining regions accept the same (start, end); the empty list accepts nothing. (A test of the two end points alone lets a range span the gap between two regions.)', floor=2)
     chk.rule('refusal-leaves-flash-mode', 'request_error() clears in_flash_mode and the stored opcode; bootloader_write_data does nothing unless in_flash_mode', floor=2)
     for fn in variants(facts, CT + 'bootloader_write_control_point', chk):
         ops = fn.body.find(lambda n: n.k == 'UnaryOperator' and n.o == '*' and is_name(n.c[0], 'value'))
@@ -106,3 +108,45 @@ def run(chk, facts, tier):
         wr = fn.body.calls('write_data') + fn.body.calls('find_next_buffer')
         ok = bool(wr) and all(has_atom(guard_atoms(fn, c), lambda n: is_name(n, 'in_flash_mode'), {'!='}, lambda o: cval(o) == 0) for c in wr)
         chk.instance('refusal-leaves-flash-mode', fn, 'data accepted only in flash mode', ok, '' if ok else 'data writes are buffered without a validated Start Flash', key='write_data')
+    region_rule(chk, facts)
+
+
+def region_rule(chk, facts):
+    for fn in variants(facts, 'bluetoe::bootloader::white_list::acceptable', chk):
+        rets = fn.returns()
+        named = [p['n'] for p in fn.params if p['n']]
+        if len(named) < 2:
+            ok = bool(rets) and all(cval(ret_value(r)) == 0 for r in rets)
+            chk.instance('range-inside-one-region', fn, 'empty white list accepts nothing', ok, '' if ok else 'the end of the region list accepts a range', key='empty:%s' % fn.kind)
+            continue
+        lo, hi = named[0], named[1]
+        ok, why = len(rets) == 1, 'expected a single return'
+        if ok:
+            terms = []
+            def disj(n):
+                n = deep(n)
+                if n.k == 'BinaryOperator' and n.o == '||':
+                    disj(n.c[0]); disj(n.c[1])
+                else:
+                    terms.append(n)
+            disj(ret_value(rets[0]))
+            own = rec = 0
+            for t in terms:
+                if t.is_call('acceptable'):
+                    a = t.args()
+                    if len(a) == 2 and is_name(a[0], lo) and is_name(a[1], hi):
+                        rec += 1
+                    else:
+                        ok, why = False, 'the remaining regions are asked about a different range than (%s, %s)' % (lo, hi)
+                    continue
+                ats = atoms(t, True)
+                a_lo = [(l, op, r) for l, op, r in ats if not isinstance(l, int) and is_name(l, lo) and op in ('>=', '>')]
+                a_hi = [(l, op, r) for l, op, r in ats if not isinstance(l, int) and is_name(l, hi) and op in ('<=', '<')]
+                if a_lo and a_hi:
+                    own += 1
+                else:
+                    ok, why = False, 'a term accepts the range without testing both %s >= Start and %s <= End against the same region: `%s`' % (lo, hi, t.text()[:80])
+            if ok and not (own == 1 and rec == 1):
+                ok, why = False, 'expected one own-region term and one recursion over the remaining regions (found %d / %d)' % (own, rec)
+        chk.instance('range-inside-one-region', fn, 'range accepted by one region or by the rest of the list', ok, '' if ok else why, key='region:%s' % fn.kind)
+
